@@ -13,9 +13,9 @@ import (
 )
 
 func init() {
-	Register(&Profile{Name: "coder-schedules", Prop: "C12", Weight: 10, Quick: 6000, Thorough: 200000, Fn: coderSchedules})
-	Register(&Profile{Name: "par2-goroutine-invariance", Prop: "C12", Weight: 3, Quick: 800, Thorough: 20000, Fn: par2GoroutineInvariance})
-	Register(&Profile{Name: "coder-race-batch", Prop: "C12", Weight: 1, Quick: 16, Thorough: 160, Fn: coderRaceBatch})
+	Register(&Profile{Name: "coder-schedules", Prop: "C12", Weight: 10, Quick: 12000, Thorough: 400000, Fn: coderSchedules})
+	Register(&Profile{Name: "par2-goroutine-invariance", Prop: "C12", Weight: 3, Quick: 1500, Thorough: 40000, Fn: par2GoroutineInvariance})
+	Register(&Profile{Name: "coder-race-batch", Prop: "C12", Weight: 1, Quick: 24, Thorough: 400, Fn: coderRaceBatch})
 	Register(&Profile{Name: "coder-free", Prop: "C12-internal", Weight: 0, Fn: func(r *Run) { coderFree(r, 40) }})
 	SetMeta("C12", &Meta{
 		Level: "exploration",
